@@ -86,6 +86,10 @@ type Enc struct {
 	// object has no dig.In/dig.Out of its own; 6: embedded In/Out first, nested objects embedded anonymously.
 	// 7: as 4, and the first field, when it is a dependency of a method-less struct type, is itself embedded.
 	Lay int `json:"lay,omitempty"`
+	// Junk (parameter objects, on an object NESTED in another object and held by a named field): tags on the
+	// field that holds it, which dig ignores for nested parameter objects. 1: optional:"true", 2: name:"zz",
+	// 3: both. They must change nothing (the inner fields keep their own optional/name).
+	Junk int `json:"jt,omitempty"`
 }
 
 // Fn is the spec of one harness-owned user function.
@@ -99,6 +103,11 @@ type Fn struct {
 	// ErrPos (constructors and decorators with HasErr, dynamic functions only): 0: the error is the last
 	// result; 1: it is the FIRST result; 2: an error result first (it carries the fault) and another one last.
 	ErrPos   int  `json:"ep,omitempty"`
+	// ErrType 1 (dynamic functions, differential C17 runs only): the error results are declared with the
+	// concrete type *vt.TErr instead of error. The function returns a nil *vt.TErr, which by Go's rules is a
+	// non-nil error once dig stores it in an error: the function counts as failed, in a normal container and
+	// (through the zero value the dry-run invoker fabricates) in a DryRun container alike.
+	ErrType int `json:"et,omitempty"`
 	Variadic bool `json:"va,omitempty"` // extra trailing variadic parameter (...V7)
 	// Faults: execution number (1-based) -> "err" | "panic". Key 0 means every execution.
 	Faults map[int]string `json:"f,omitempty"`
@@ -191,6 +200,10 @@ type Options struct {
 	RandSeed int64 `json:"rs,omitempty"`
 	// OptOrder > 0: the container options are passed to dig.New in the permutation this number encodes.
 	OptOrder int64 `json:"oo,omitempty"`
+	// ReuseInfo: one ProvideInfo, one DecorateInfo and one InvokeInfo struct are handed to every call of the
+	// history that asks for Info (instead of a fresh struct per call): an accepted call must overwrite what an
+	// earlier call left there, a rejected one must leave exactly that.
+	ReuseInfo bool `json:"ri,omitempty"`
 }
 
 // History is a complete, self-contained test case.
@@ -232,7 +245,8 @@ func cloneEnc(e []Enc) []Enc {
 	}
 	out := make([]Enc, len(e))
 	for i, x := range e {
-		out[i] = Enc{Leaf: x.Leaf, IsObj: x.IsObj, Obj: cloneEnc(x.Obj), Lay: x.Lay}
+		out[i] = x
+		out[i].Obj = cloneEnc(x.Obj)
 	}
 	return out
 }
